@@ -170,6 +170,12 @@ def validityFindings (label : String) (obs : List ObsRpc) (cfg4 : Cfg4 := { acce
      else [⟨"C16", s!"{label}: update is not valid for the pipeline's P4Info ({tableName (match u.upd.ent with | .tbl e => e.table | _ => 0)}): {showU u.upd}"⟩]) ++
     (match u.upd.ent with
      | .tbl e =>
+       -- an LPM match value has no bit set beyond its prefix length (P4Runtime: the server rejects the write otherwise)
+       (e.ms.filterMap fun m => if m.kind == .lpm ∧ m.aux ≤ 32 ∧ m.v % 2 ^ (32 - m.aux) != 0 then
+          some ⟨"C16", s!"{label}: LPM match value {m.v} has bits set beyond its prefix length {m.aux}: {showU u.upd}"⟩ else none)
+     | _ => []) ++
+    (match u.upd.ent with
+     | .tbl e =>
        if u.upd.op == .delete then [] else
        match ctrIdxOf e with
        | some v => if v < Up4.ctrCells cfg4 then [] else
